@@ -5,6 +5,26 @@
 (* projection of both invoices) must equal the model after that action.       *)
 (* The same module judges the KV and the SQLite store.                        *)
 (*                                                                            *)
+(* The projection of the two invoices in every record is what the executor    *)
+(* READ BACK FROM THE STORE (InvoiceDB.LookupInvoice) after the event, looked  *)
+(* up under the concrete circuit keys of the behaviour's key pattern kp (the  *)
+(* Reset record carries the value classes of the keys it used: ConformReset   *)
+(* compares them with KeyOf).  Besides the comparison with the model          *)
+(* (Conform*), the clauses of the property that speak about recorded state    *)
+(* are evaluated on that projection itself, together with the answers handed  *)
+(* out in the same event (Store*, no model state involved):                   *)
+(*   StoreResAgree      an HTLC the links were told to settle / fail is held  *)
+(*                      as settled / canceled by the store, a held one as     *)
+(*                      accepted ("no HTLC is both settled and canceled")     *)
+(*   StoreAmtPaidExact  a settled non-AMP invoice records as amount paid      *)
+(*                      exactly the sum of its settled HTLCs                  *)
+(*   StoreStatesAgree   settled HTLCs only on a settled invoice, none left    *)
+(*                      accepted on a settled one, all canceled on a canceled *)
+(*                      one (non-AMP); an HTLC is on one invoice only and     *)
+(*                      under a circuit key that was used                     *)
+(*   StoreForward       from one record to the next invoice and HTLC states   *)
+(*                      only move forward, amounts and totals never change    *)
+(*                                                                            *)
 (* Sequential records (th = 0) are compared by INVARIANTS over the last       *)
 (* consumed line (Guarded = FALSE: the violated invariant names the field).   *)
 (* A concurrent block  Par(n1,n2) | n1 records of link 1 | n2 records of link *)
@@ -26,7 +46,7 @@ NoBlk == [on |-> FALSE, base |-> 0, n1 |-> 0, n2 |-> 0, p1 |-> 0, p2 |-> 0, ins1
 TInit == Init /\ l = 1 /\ blk = NoBlk /\ acc = NoMsgs /\ TLCSet(1, 0)
 
 POf(r) == [c |-> r.c, pl |-> r.pl, h |-> r.h, ad |-> r.ad, amt |-> r.amt, tot |-> r.tot, exp |-> r.exp,
-           set |-> r.set, good |-> r.good = 1]
+           set |-> r.set, good |-> r.good = 1, cs |-> r.cs = 1]
 
 \* ---- recorded vs model ----------------------------------------------------
 WhyOK(lst, r) == r.why = lst.why \/ (lst.alt # "" /\ r.why = lst.alt)
@@ -55,6 +75,7 @@ Event(r) == \/ r.a \in {"Notify", "Replay"} /\ htlc[r.c] = NoHtlc /\ height = r.
 
 Reset == /\ Is("Reset")
          /\ kinds' = <<Trace[l].k1, Trace[l].k2>>
+         /\ kp' = Trace[l].kp
          /\ inv' = [k \in Inv |-> LET kd == IF k = 1 THEN Trace[l].k1 ELSE Trace[l].k2 IN
                                    [ex |-> kd # "keysend", st |-> "open", paid |-> 0,
                                     val |-> IF kd \in {"zeroamt", "keysend"} THEN 0 ELSE V]]
@@ -82,7 +103,7 @@ Link(t) ==
            /\ inv' = KsIns(p)
            /\ last' = [a |-> "KsInsert", c |-> r.c, k |-> 0, res |-> "none", why |-> "", alt |-> "", hodl |-> NoMsgs]
            /\ blk' = IF t = 1 THEN [blk EXCEPT !.ins1 = TRUE] ELSE [blk EXCEPT !.ins2 = TRUE]
-           /\ UNCHANGED <<kinds, htlc, sub, timer, setOwner, height, now, pend, acc, l>>
+           /\ UNCHANGED <<kinds, kp, htlc, sub, timer, setOwner, height, now, pend, acc, l>>
         \/ /\ IF ks /\ ins
                 THEN height = r.ht /\ Commit(LockedOut(inv, p), "Notify", r.c, 0) /\ UNCHANGED <<height, now, pend>>
                 ELSE Event(r)
@@ -120,7 +141,53 @@ ConformHodl == Live => HodlOK(last.hodl, Last)
 ConformInv  == Live => InvOK(inv, Last)
 ConformHtlc == Live => HtlcOK(inv, htlc, Last)
 \* the fixture itself: what AddInvoice created is what the model starts from
-ConformReset == (~Guarded /\ l > 1 /\ Last.a = "Reset") => (InvOK(inv, Last) /\ HtlcOK(inv, htlc, Last))
+\* ... and the circuit keys the executor used are those of the pattern
+KeysOK(r) == /\ r.kp \in KeyPatterns
+             /\ \A c \in C : r.ck[c].ch = KeyOf(r.kp, c).ch /\ r.ck[c].id = KeyOf(r.kp, c).id /\ r.ck[c].n = KeyOf(r.kp, c).n
+ConformReset == (~Guarded /\ l > 1 /\ Last.a = "Reset") => (InvOK(inv, Last) /\ HtlcOK(inv, htlc, Last) /\ KeysOK(Last))
+
+\* ---- the property on the store's projection (recorded values only) ----------
+SH(r, k, d) == r.inv[k].h[d]
+RECURSIVE StoreSumTo(_, _, _, _)
+StoreSumTo(r, k, st, n) == IF n = 0 THEN 0
+                           ELSE (IF SH(r, k, n).st = st THEN SH(r, k, n).amt ELSE 0) + StoreSumTo(r, k, st, n - 1)
+StoreSum(r, k, st) == StoreSumTo(r, k, st, NC)
+Held(r, d, st) == \E k \in Inv : SH(r, k, d).st = st
+\* records that carry a projection read after an event: all but the opening of a concurrent block and the
+\* records inside one (these repeat the projection taken before the block)
+Snap == l > 1 /\ ~blk.on /\ Last.a # "Par"
+Seq  == Snap /\ Last.a \notin {"Reset", "Join"}
+\* (with KeysendQuirk the answer of deviation D1 is exempt here as well: it is reported on its own)
+D1Rec(r) == KeysendQuirk /\ r.a = "Replay" /\ r.why = WKeysend
+StoreResAgree ==
+  Seq => /\ \A d \in C : /\ Last.hodl[d].kd = "settle" => Held(Last, d, "settled")
+                         /\ Last.hodl[d].kd = "fail" => Held(Last, d, "canceled")
+         /\ (Last.a \in {"Notify", "Replay"} /\ ~D1Rec(Last)) =>
+               /\ Last.res = "settle" => Held(Last, Last.c, "settled")
+               /\ Last.res = "accept" => Held(Last, Last.c, "accepted")
+               /\ Last.res = "fail" => ~Held(Last, Last.c, "settled") /\ ~Held(Last, Last.c, "accepted")
+StoreAmtPaidExact ==
+  Snap => \A k \in Inv : (Last.inv[k].ex = 1 /\ ~IsAmp(k) /\ Last.inv[k].st = "settled") =>
+                            (Last.inv[k].paid = StoreSum(Last, k, "settled") /\ Last.inv[k].rem = 0)
+StoreStatesAgree ==
+  Snap => /\ \A k \in Inv : /\ Last.inv[k].extra = 0
+                            /\ Last.inv[k].ex = 0 => \A d \in C : SH(Last, k, d).st = "none"
+                            /\ ~IsAmp(k) => \A d \in C :
+                                  /\ SH(Last, k, d).st = "settled" => Last.inv[k].st = "settled"
+                                  /\ Last.inv[k].st = "settled" => SH(Last, k, d).st # "accepted"
+                                  /\ Last.inv[k].st = "canceled" => SH(Last, k, d).st \in {"none", "canceled"}
+          /\ \A d \in C : SH(Last, 1, d).st = "none" \/ SH(Last, 2, d).st = "none"
+StoreForward ==
+  (Snap /\ Last.a # "Reset" /\ l > 2) =>
+     LET q == Trace[l - 2] IN
+     \A k \in Inv :
+        /\ q.inv[k].ex = 1 => /\ Last.inv[k].ex = 1
+                              /\ InvRank(Last.inv[k].st) >= InvRank(q.inv[k].st)
+                              /\ InvRank(q.inv[k].st) = 2 => Last.inv[k].st = q.inv[k].st
+        /\ \A d \in C : SH(q, k, d).st # "none" =>
+              /\ HtlcRank(SH(Last, k, d).st) >= HtlcRank(SH(q, k, d).st)
+              /\ HtlcRank(SH(q, k, d).st) = 2 => SH(Last, k, d).st = SH(q, k, d).st
+              /\ SH(Last, k, d).amt = SH(q, k, d).amt /\ SH(Last, k, d).tot = SH(q, k, d).tot
 
 \* the action properties of the property, on the model run that the trace selects (a Reset starts a new run)
 NotReset == ~(~blk.on /\ l <= Len(Trace) /\ Trace[l].a = "Reset")
